@@ -39,12 +39,22 @@ structure Cfg where
   /-- `Schema.clone` copies the resolver registries with `merge_resolvers` (fresh inner per-type dicts); `false`: the outer
       maps are copied with `dict.update` and the inner dicts are SHARED with the source -/
   cloneRegsDeep : Bool
+  /-- `Schema.clone` replays only the registry entries that still name a field of the clone
+      (`merge_resolvers(self._applicable_resolvers(cloned))`, T5); `false`: every entry is replayed and an entry naming a
+      renamed / removed field makes `clone()` raise `SchemaError` -/
+  cloneRegsFiltered : Bool
+  /-- `Schema.clone` copies the registry ENTRIES only (the cloned fields already carry their resolvers); `false`: the entries
+      are replayed through `Schema.register_resolver` / `register_subscription`, which also assign to the field and raise
+      `ValueError` when the field's resolver was replaced since it was registered (T6) -/
+  cloneRegsByValue : Bool
+  /-- `extend_schema` carries the `resolvers` / `subscriptions` registries over (T8); `false`: the result's are empty -/
+  extKeepRegs : Bool
   deriving Repr, DecidableEq
 
 /-- the code with every proposed fix applied -/
-def Cfg.fixed : Cfg := ⟨true, true, true, true, true, true, true, true, true, true, true, true, true, true, true, true⟩
+def Cfg.fixed : Cfg := ⟨true, true, true, true, true, true, true, true, true, true, true, true, true, true, true, true, true, true, true⟩
 /-- the code of the unchanged tree (snapshot 2541ded) -/
-def Cfg.legacy : Cfg := ⟨false, false, false, false, false, false, false, false, false, false, false, false, false, false, false, true⟩
+def Cfg.legacy : Cfg := ⟨false, false, false, false, false, false, false, false, false, false, false, false, false, false, false, true, false, false, false⟩
 
 /-- the fixed code, except that `clone` copies the registries shallowly (the class of a seeded change) -/
 def Cfg.shallowRegs : Cfg := { Cfg.fixed with cloneRegsDeep := false }
